@@ -134,7 +134,7 @@ func c11StoreUnit(driver string, depth, shard, nshards int) vh.Unit {
 			},
 			Key: func(wi interface{}) string {
 				w := wi.(*c11World)
-				return fmt.Sprintf("%v|%s", w.open, w.model.Key())
+				return fmt.Sprintf("%v|%s|%s", w.open, w.model.Key(), vh.StateKey(w.st))
 			},
 		}
 		vh.RunBFS(u, spec)
